@@ -6,6 +6,7 @@
 # exits 0 too, the checks whose functions the patch touches).  Nothing is written under /verif except
 # evidence/scratch/ and replays/ (both ignored).  One line per seed on stdout:
 #   <id> bounded|check|other:<prop>|MISSED|NOAPPLY
+# BSEED=<n> picks the seed of the bounded part; STAGE1_ONLY=1 skips stage 2 (to see which catches depend on the draw).
 # Stage 1 runs 12 seeds at a time (the bounded part is one process); stage 2 (16-process pool) runs serially.
 V=/verif
 cd "$V" || exit 2
@@ -18,7 +19,7 @@ stage1() {
     if git -C "$wt" apply --3way "$V/seeded/$id/patch.diff" >/dev/null 2>&1; then git -C "$wt" reset -q
     else echo "$id NOAPPLY" > "$res/$id.r"; git -C /repo worktree remove --force "$wt"; return; fi
   fi
-  n=$(PYTHONPATH="$wt:$V" VERIF_REPO="$wt" /venv/bin/python "$V/replay/bounded.py" "$prop" --tier quick --seed 0 2>/dev/null \
+  n=$(PYTHONPATH="$wt:$V" VERIF_REPO="$wt" /venv/bin/python "$V/replay/bounded.py" "$prop" --tier quick --seed "${BSEED:-0}" 2>/dev/null \
       | python3 -c "import json,sys; print(len(json.loads(sys.stdin.read().strip().split('\n')[-1])['failures']))" 2>/dev/null)
   if [ -n "$n" ] && [ "$n" != "0" ]; then echo "$id bounded" > "$res/$id.r"; git -C /repo worktree remove --force "$wt"
   else echo "$id PENDING" > "$res/$id.r"; fi
@@ -31,7 +32,9 @@ done
 wait
 for id in "${ids[@]}"; do
   r=$(cat "$res/$id.r")
-  if [ "$r" = "$id PENDING" ]; then
+  if [ "$r" = "$id PENDING" ] && [ -n "${STAGE1_ONLY:-}" ]; then
+    git -C /repo worktree remove --force "$res/wt_$id"; r="$id quiet-at-seed-${BSEED:-0}"
+  elif [ "$r" = "$id PENDING" ]; then
     prop="${id%%-*}"; wt="$res/wt_$id"; r="$id MISSED"
     VERIF_REPO="$wt" ./check "$prop" --tier quick >/dev/null 2>&1; rc=$?
     if [ $rc -eq 1 ]; then r="$id check"
